@@ -72,6 +72,70 @@ def displace(rng, items, d):
     return [x for _, _, x in keyed]
 
 
+def gen_rx_pli(rng):
+    """arrivals at a real video RTCRtpReceiver (its 128-slot jitter buffer): a framed stream with holes, long enough for
+    the buffer to fill up behind an incomplete frame and throw packets away"""
+    seq = rng.choice([0, 1000, 65300, 65500, rng.randrange(65536)])
+    ts = rng.randrange(1 << 32)
+    pk = []
+    n = rng.randrange(135, 320)
+    while len(pk) < n:
+        ts = (ts + 3000) & 0xFFFFFFFF
+        for _ in range(rng.choice([1, 1, 2, 3, 4])):
+            seq = (seq + 1) & 0xFFFF
+            if rng.random() < rng.choice([0.0, 0.01, 0.05]):
+                continue
+            pk.append([seq, ts])
+        if rng.random() < 0.01:
+            seq = (seq + rng.choice([200, 1000, 40000])) & 0xFFFF       # a jump: the buffer starts over
+    return ["rx", pk]
+
+
+def run_rx_pli(case):
+    """per arrival: what JitterBuffer.add returned (key-frame request, frame) and what the receiver did with it (PLI on the
+    wire, frame handed to the decoder)"""
+    from aiortc import rtp
+    from harness.props.c11 import ReceiverRig, _loop_run
+    out = {"steps": []}
+
+    async def go():
+        rig = ReceiverRig([[[100, [0]]], [], [99]], None)
+        await rig.start()
+        try:
+            jb = getattr(rig.receiver, "_RTCRtpReceiver__jitter_buffer")
+            real_add = jb.add
+            last = []
+
+            def spy(packet):
+                r = real_add(packet)
+                last.append([bool(r[0]), r[1] is not None])
+                return r
+            jb.add = spy
+            for i, (seq, ts) in enumerate(case[1]):
+                pkt = rtp.RtpPacket(payload_type=100, sequence_number=seq, timestamp=ts, ssrc=1234, payload=b"\x10\x00\x00\x01data")
+                del last[:]
+                res = await rig.handle(pkt, arrival_ms=i * 10)
+                out["steps"].append([last[0] if last else None, len(res[1]), len(res[2])])
+        finally:
+            await rig.stop()
+    _loop_run(go())
+    return out
+
+
+def oracle_rx_pli(case, out):
+    for k, (jb, plis, frames) in enumerate(out["steps"]):
+        if jb is None:
+            continue
+        if jb[0] and plis != 1:
+            return ("key-frame-request-swallowed", f"arrival #{k} (seq {case[1][k][0]}): the jitter buffer threw away held packets "
+                                                   f"and asked for a key frame, the receiver sent {plis} PLI (frame released by the same call: {jb[1]})")
+        if not jb[0] and plis:
+            return ("spurious-pli", f"arrival #{k}: {plis} PLI although the jitter buffer did not ask for a key frame")
+        if jb[1] != bool(frames):
+            return ("frame-not-handed-over", f"arrival #{k}: jitter buffer released a frame: {jb[1]}, frames handed to the decoder: {frames}")
+    return None
+
+
 class C10(Check):
     prop = "C10"
     props_file = "Props/C10.v"
@@ -91,7 +155,8 @@ class C10(Check):
             "in order / with bounded displacement < capacity / as a full permutation / with loss, duplication, "
             "unbounded displacement, late packets around MAX_MISORDER, sequence jumps around capacity, 100, 32768, "
             "65536; capacities 4..128 (rarely 1, 2, 256 and invalid ones), prefetch 0..4, audio and video; distinct "
-            "by (history, outputs); non-trivial = at least two frames released and at least one call that released "
+            "by (history, outputs); plus (extra check, oracle only) 25 / 150 arrival lists of 135-320 packets with holes at a real video "
+            "RTCRtpReceiver: every key-frame request of its jitter buffer must go out as a PLI, every frame to the decoder; non-trivial = at least two frames released and at least one call that released "
             "nothing")
 
     # ------------------------------------------------------------ generator
@@ -178,6 +243,10 @@ class C10(Check):
         return [case[0], case[1], case[2], [[p[0], p[1], p[2]] for p in case[3]]]
 
     def shrink_candidates(self, case):
+        if case[0] == "rx":
+            for c in Check.shrink_candidates(self, case[1]):
+                yield ["rx", c]
+            return
         cap, pf, video, pkts = case
         n = len(pkts)
         step = max(1, n // 2)
@@ -191,9 +260,26 @@ class C10(Check):
             yield [cap, 0, video, pkts]
 
     # ------------------------------------------------------------ implementation
+    def extra_checks(self, ctx):
+        """`a video buffer signals a key-frame request whenever it had to throw away packets it was holding`: in a real
+        video RTCRtpReceiver that signal must reach the wire as a PLI, also when the same add() releases a frame"""
+        import random
+        rng = random.Random(1010)
+        n = 150 if ctx["tier"] == "thorough" else 25
+        self.rx_pli_cases = n
+        for _ in range(n):
+            case = gen_rx_pli(rng)
+            res = oracle_rx_pli(case, run_rx_pli(case))
+            if res:
+                return [(res[0], res[1], case)]
+        return []
+
     def impl_run(self, case):
         from aiortc.jitterbuffer import JitterBuffer
         from aiortc.rtp import RtpPacket
+
+        if case[0] == "rx":
+            return run_rx_pli(case)
 
         cap, pf, video, pkts = case
         try:
@@ -218,6 +304,8 @@ class C10(Check):
 
     # ------------------------------------------------------------ oracle (the property, on the implementation)
     def oracle(self, case, impl_out):
+        if case[0] == "rx":
+            return oracle_rx_pli(case, impl_out)
         cap, pf, video, pkts = case
         if not cap_valid(cap):
             return None                     # outside the property: the constructor / first add rejects it
